@@ -456,6 +456,12 @@ int main (int argc, char *argv[]) {
                 exit_val = 10;
                 goto out;
             }
+            /* Chunks are missing, but none of them has any bytes to download */
+            if(zck_get_range_count(range) == 0) {
+                LOG_ERROR("Missing chunks can't be downloaded\n");
+                exit_val = 10;
+                goto out;
+            }
             while(range_attempt[ra_index] > 1 &&
                   range_attempt[ra_index+1] > zck_get_range_count(range))
                 ra_index++;
